@@ -193,10 +193,10 @@ def cases(tier, seed):
         two = omin is not None and omax is not None
         add(ls=2, dims=2, units=1, terms=1, mono=mono, omin=omin, omax=omax, mode=mode)
         if mode != 'finalize' or mono in ([1, 0],):
-          add(ls=2, dims=2, units=1, terms=2, mono=mono, omin=omin, omax=omax, mode=mode, required=not two, timeout=100)
+          add(ls=2, dims=2, units=1, terms=2, mono=mono, omin=omin, omax=omax, mode=mode, required=not two, timeout=100 if not two else 30)
         if mono in ([1, 0], None) and mode == 'scale-first':
-          add(ls=3, dims=2, units=1, terms=1, mono=mono, omin=omin, omax=omax, mode=mode, required=not two, timeout=100)
-          add(ls=2, dims=2, units=2, terms=1, mono=mono, omin=omin, omax=omax, mode=mode, required=not two, timeout=100)
+          add(ls=3, dims=2, units=1, terms=1, mono=mono, omin=omin, omax=omax, mode=mode, required=not two, timeout=100 if not two else 30)
+          add(ls=2, dims=2, units=2, terms=1, mono=mono, omin=omin, omax=omax, mode=mode, required=not two, timeout=100 if not two else 30)
   add(ls=2, dims=2, units=1, terms=1, mono=[1, 0], omin=0.0, omax=1.0, mode='scale-first', clip=False)
   add(ls=3, dims=2, units=1, terms=1, mono=[1, 1], omin=None, omax=None, mode='kernel-first', clip=False, required=False)
   if tier == 'thorough':
